@@ -253,7 +253,10 @@ def _flags_to_try(source:str, flags, auto_flags, mode):
     """
     flags = CompilerFlags(flags)
     if re.search(r"# *type:", source):
-        flags = flags | CompilerFlags('type_comments')
+        # Parse type comments if possible.  A "# type:" comment in a place
+        # where no type comment is allowed ("foo()  # type: int") is a
+        # syntax error only for this flag; Python itself ignores it.
+        yield flags | CompilerFlags('type_comments')
     yield flags
     return
 
